@@ -712,6 +712,11 @@ class Interp:
             if not v:
                 return Enum("Option", "None")
             return Enum("Option", "Some", {"0": Ref(v, len(v) - 1 if m == "last_mut" else 0)})
+        if gen.startswith(("core::option::Option::<&T>::", "core::option::Option::<&mut T>::")) and short(gen) in ("copied", "cloned"):
+            v = self.ev(args[0], env, depth)
+            if isinstance(v, Enum) and v.variant == "Some" and isinstance(v.fields.get("0"), Ref):
+                return Enum("Option", "Some", {"0": v.fields["0"].get()})
+            return v
         if (gen.startswith("core::option::Option::<T>::") or gen.startswith("core::result::Result::<T, E>::")) and \
                 short(gen) not in ("is_some", "is_none", "is_ok", "is_err"):
             return self.option_method(short(gen), self.ev(args[0], env, depth), args[1:], env, depth)
@@ -780,6 +785,41 @@ class Interp:
         if gen.startswith(("std::collections::hash::set::HashSet", "std::collections::hash::map::HashMap", "std::collections::hash::map::Entry",
                            "std::collections::hash::map::OccupiedEntry", "std::collections::hash::map::VacantEntry")):
             return self.hash_method(gen, args, env, depth)
+        if gen in ("alloc::slice::<impl [T]>::sort", "core::slice::<impl [T]>::sort_unstable", "alloc::slice::<impl [T]>::sort_by", "core::slice::<impl [T]>::sort_unstable_by",
+                   "alloc::slice::<impl [T]>::sort_by_key", "core::slice::<impl [T]>::sort_unstable_by_key"):
+            import functools
+            v = self.ev(args[0], env, depth)
+            if isinstance(v, Ref):
+                v = v.get()
+            if not isinstance(v, list):
+                raise Unknown("sort of %r" % (v,))
+
+            def keyof(x):
+                if isinstance(x, Ref):
+                    x = x.get()
+                if isinstance(x, Enum):
+                    return (x.variant or "", tuple(keyof(y) for y in x.fields.values()))
+                if isinstance(x, (list, tuple)):
+                    return tuple(keyof(y) for y in x)
+                if isinstance(x, (int, float, str, bool)):
+                    return x
+                raise Unknown("ordering of %r" % (x,))
+            m = short(gen)
+            if m in ("sort", "sort_unstable"):
+                v.sort(key=keyof)
+            elif m.endswith("by_key"):
+                c = self.ev(args[1], env, depth)
+                v.sort(key=lambda x: keyof(self.call_callable(c, [x], depth)))
+            else:
+                c = self.ev(args[1], env, depth)
+
+                def cmp(a_, b_):
+                    r = self.call_callable(c, [a_, b_], depth)
+                    if isinstance(r, Enum) and r.variant in ("Less", "Equal", "Greater"):
+                        return {"Less": -1, "Equal": 0, "Greater": 1}[r.variant]
+                    raise Unknown("comparator result %r" % (r,))
+                v.sort(key=functools.cmp_to_key(cmp))
+            return ()
         if gen in ("core::iter::traits::collect::Extend::extend", "alloc::vec::Vec::<T, A>::extend_from_slice", "alloc::vec::Vec::<T, A>::append"):
             v = self.ev(args[0], env, depth)
             o = self.ev(args[1], env, depth)
@@ -908,6 +948,14 @@ class Interp:
             if isinstance(v, (list, tuple)):
                 return len(v)
             raise Unknown("len of %r" % (v,))
+        if gen == "core::ops::index::IndexMut::index_mut":
+            base = self.ev(args[0], env, depth)
+            if isinstance(base, Ref):
+                base = base.get()
+            i = self.ev(args[1], env, depth)
+            if isinstance(base, list) and isinstance(i, int) and 0 <= i < len(base):
+                return base[i] if isinstance(base[i], (Enum, list, HSet, HMap)) else Ref(base, i)
+            raise Unknown("core::panicking: index_mut out of range" if isinstance(base, list) and isinstance(i, int) else "index_mut %r[%r]" % (base, i))
         if gen == "core::ops::index::Index::index":
             base = self.ev(args[0], env, depth)
             i = self.ev(args[1], env, depth)
@@ -942,7 +990,7 @@ class Interp:
             raise Unknown("contains")
         if gen in ("core::cmp::Ord::cmp", "core::cmp::PartialOrd::partial_cmp"):
             a, b = self.ev(args[0], env, depth), self.ev(args[1], env, depth)
-            if isinstance(a, int) and isinstance(b, int):
+            if (isinstance(a, int) and isinstance(b, int)) or (isinstance(a, str) and isinstance(b, str)):
                 return Enum("Ordering", ORD[(a > b) - (a < b)])
             raise Unknown("cmp on non-int")
         if gen in ("core::cmp::PartialEq::eq", "core::cmp::PartialEq::ne"):
